@@ -171,6 +171,30 @@ def handleC15 (cmd : String) (args : List Sexp) : Option Sexp :=
       pure (match setField (← fs.mapM asAtom?) ⟨← bool? ac, ← bool? nc⟩ (← hint? h) tc key a with
         | .error e => tagged "err" [errToSexp e]
         | .ok tc' => tagged "ok" [tcToSexp tc', attrValToSexp (getField tc' key)])
+  -- (c15.setitem item cls selftd (nt…) value)   value := (tc cls td (nt…)) | (td td) | scalar | other ; item := key | batch
+  | "c15.setitem", [.atom item, .atom cls, selftd, .list nt, v] => do
+      let self : TC TDd String := ⟨cls, ← td? selftd, ← nt? nt⟩
+      let k : ItemKind := if item = "key" then .key else .batch
+      let val : SetItemVal TDd String ← match v with
+        | .list [.atom "tc", .atom vc, vt, .list vnt] => do pure (.tc ⟨vc, ← td? vt, ← nt? vnt⟩)
+        | .list [.atom "tdv", vt] => do pure (.td (← td? vt))
+        | .atom "scalar" => pure .scalar
+        | .atom "other" => pure .other
+        | _ => none
+      -- the tensordict write: existing entries written, entries the destination lacks created
+      let tdSetAt : TDd → Option TDd → Except Err TDd := fun t ov =>
+        match ov with
+        | none => .ok t
+        | some w => .ok ⟨t.tag, t.keys ++ w.keys.filter (fun x => !t.keys.contains x)⟩
+      pure (match setitemTc TDd.keys tdSetAt k self val with
+        | .error e => tagged "err" [errToSexp e]
+        | .ok tc' => tagged "ok" [.atom tc'.cls, .list ((tc'.td.keys.mergeSort (· ≤ ·)).map .atom), ntToSexp tc'.nt])
+  | "c15.getitem", [.atom item, .atom cls, .list fs, selftd, .list nt] => do
+      let self : TC TDd String := ⟨cls, ← td? selftd, ← nt? nt⟩
+      let k : ItemKind := if item = "key" then .key else .batch
+      pure (match getitemTc (← fs.mapM asAtom?) TDd.keys (fun t => .ok ⟨"t_idx", t.keys⟩) k self with
+        | .error e => tagged "err" [errToSexp e]
+        | .ok tc' => tagged "ok" [.atom tc'.cls, ntToSexp tc'.nt])
   | "c15.delfield", [lk, .list es, .list nt, .atom key] => do
       let tc : TC (TDm String String) String := ⟨"C", ⟨← entries? es, ← bool? lk⟩, ← nt? nt⟩
       pure (match delField tc key with
